@@ -151,9 +151,9 @@ def check_checker(run, db):
                 run.ok('R-LEAKCHK', inst, f.loc, 'handler(allocated_) iff allocated_ != 0, once')
         elif f.kind in ('move-ctor', 'move-assign'):
             n += 1
-            took = any((e['ev'] == 'init' and e.get('field') == 'allocated_' and sym.canon(e['e']) == '$other.allocated_')
-                       or (_writes_field(e, 'allocated_', '=') and sym.canon(e['rhs']) == '$other.allocated_') for e in evs)
-            zeroed = [e for e in evs if e['ev'] == 'assign' and sym.canon(e['lhs']) == '$other.allocated_' and sym.canon(e['rhs']) == '0']
+            took = any((e['ev'] == 'init' and e.get('field') == 'allocated_' and sym.canon(e['e'], {0: 'other'}) == '$other.allocated_')
+                       or (_writes_field(e, 'allocated_', '=') and sym.canon(e['rhs'], {0: 'other'}) == '$other.allocated_') for e in evs)
+            zeroed = [e for e in evs if e['ev'] == 'assign' and sym.canon(e['lhs'], {0: 'other'}) == '$other.allocated_' and sym.canon(e['rhs']) == '0']
             if took and zeroed and flow.must_pass_through(f, lambda e: e in zeroed):
                 run.ok('R-LEAKCHK', inst, f.loc, 'count moves with the object, source zeroed')
             else:
